@@ -633,23 +633,47 @@ package argmapper
 //@   modifies nothing
 
 // ---------------------------------------------------------------- call.go: callGraph (first: frame level), Call
+//@ ghost reqVerts(vs []graph.Vertex, root graph.Vertex) bool = forall(i, int, imp(0 <= i && i < len(vs), (typeis(vs[i], *valueVertex) && as(vs[i], *valueVertex) != nil) || (typeis(vs[i], *typedArgVertex) && as(vs[i], *typedArgVertex) != nil) || vs[i] == root))
 //@ func (*Func).callGraph
 //@   requires args != nil && bOK(args) && funcOK(f)
 //@   ensures  [no-user-code-but-generators] planning == old(planning) && failed == old(failed) && nexec == old(nexec)
-//@   ensures  [graph-well-formed] wf0(g) && gOK(g)
+//@   ensures  [graph-well-formed using gOK, wf] wf0(g) && imp(err == nil, gOK(g))
 //@   ensures  [rule-instances-only] ruleInv(g)
 //@   ensures  [root-kept] imp(err == nil, typeis(vertexRoot, *rootVertex) && has(g.hash, hc(vertexRoot)) && hkind(hc(vertexRoot)) == 5)
 //@   assigns  graph.Graph, Outer, Inner, HashM, VisitM, []graph.Vertex, [][]graph.Vertex, valueVertex, typedArgVertex, typedOutputVertex, funcVertex, rootVertex, Value, valueInternal, []*Value, ErrArgumentUnsatisfied, []*Func, []interface{}, reported, dvisited, kpos, spos, fin, frozen, cnt, reqs, ins
 //@   modifies nothing
 //@   tail-split
 //@   hint frame-call using maps-fresh, Add.foot, AddEdge.foot, AddEdgeWeighted.foot, Add.1, AddEdgeWeighted.1, AddEdge.1, graph.foot, graph.graph-kept-well-formed
-//@   hint call-requires/.*endpoints-present using reps, root, Add.verts, Add.2, AddEdgeWeighted.1, AddEdge.1
+//@   hint call-requires/.*endpoints-present using reps, step-reps, root, Add!, AddEdgeWeighted!, AddEdge!
 //@   hint panic/nil using reps
-//@   loop * invariant [maps-fresh using maps-fresh, Add, AddEdgeWeighted, AddEdge, graph.foot, graph.graph-kept-well-formed, footGrows, alloc] fresh(g.hash) && fresh(g.adjacencyOut) && fresh(g.adjacencyIn) && forall(m, Inner, imp(infoot(g, m), fresh(m)))
-//@   loop * invariant [wf] wf(g) && sameRefs(g)
-//@   loop * invariant [gOK using gOK, step-gOK, reps, graph.graph-kept-well-formed, Add!, AddEdgeWeighted!, AddEdge!] gOK(g)
-//@   loop * invariant [rules using rules, AddEdgeWeighted, AddEdge, Add.edges, Add.verts] ruleInv(g)
-//@   loop * invariant [root] typeis(vertexRoot, *rootVertex) && as(vertexRoot, *rootVertex) != nil && has(g.hash, hc(vertexRoot)) && hkind(hc(vertexRoot)) == 5 && args != nil && bVals(args) && funcOK(f)
+//@   loop 1 invariant [maps-fresh using maps-fresh, Add, AddEdgeWeighted, AddEdge, Remove, Reverse, DFS!, graph.foot, graph.graph-kept-well-formed, footGrows, innerStable, frameG, alloc] fresh(g.hash) && fresh(g.adjacencyOut) && fresh(g.adjacencyIn) && forall(m, Inner, imp(infoot(g, m), fresh(m)))
+//@   loop 2 invariant [maps-fresh using maps-fresh, Add, AddEdgeWeighted, AddEdge, Remove, Reverse, DFS!, graph.foot, graph.graph-kept-well-formed, footGrows, innerStable, frameG, alloc] fresh(g.hash) && fresh(g.adjacencyOut) && fresh(g.adjacencyIn) && forall(m, Inner, imp(infoot(g, m), fresh(m)))
+//@   loop 3 invariant [maps-fresh using maps-fresh, Add, AddEdgeWeighted, AddEdge, Remove, Reverse, DFS!, graph.foot, graph.graph-kept-well-formed, footGrows, innerStable, frameG, alloc] fresh(g.hash) && fresh(g.adjacencyOut) && fresh(g.adjacencyIn) && forall(m, Inner, imp(infoot(g, m), fresh(m)))
+//@   loop 4 invariant [maps-fresh using maps-fresh, Add, AddEdgeWeighted, AddEdge, Remove, Reverse, DFS!, graph.foot, graph.graph-kept-well-formed, footGrows, innerStable, frameG, alloc] fresh(g.hash) && fresh(g.adjacencyOut) && fresh(g.adjacencyIn) && forall(m, Inner, imp(infoot(g, m), fresh(m)))
+//@   loop 5 invariant [maps-fresh using maps-fresh, Add, AddEdgeWeighted, AddEdge, Remove, Reverse, DFS!, graph.foot, graph.graph-kept-well-formed, footGrows, innerStable, frameG, alloc] fresh(g.hash) && fresh(g.adjacencyOut) && fresh(g.adjacencyIn) && forall(m, Inner, imp(infoot(g, m), fresh(m)))
+//@   loop 6 invariant [maps-fresh using maps-fresh, Add, AddEdgeWeighted, AddEdge, Remove, Reverse, DFS!, graph.foot, graph.graph-kept-well-formed, footGrows, innerStable, frameG, alloc] fresh(g.hash) && fresh(g.adjacencyOut) && fresh(g.adjacencyIn) && forall(m, Inner, imp(infoot(g, m), fresh(m)))
+//@   loop 7 invariant [maps-fresh using maps-fresh, Add, AddEdgeWeighted, AddEdge, Remove, Reverse, DFS!, graph.foot, graph.graph-kept-well-formed, footGrows, innerStable, frameG, alloc] fresh(g.hash) && fresh(g.adjacencyOut) && fresh(g.adjacencyIn) && forall(m, Inner, imp(infoot(g, m), fresh(m)))
+//@   loop 8 invariant [maps-fresh using maps-fresh, Add, AddEdgeWeighted, AddEdge, Remove, Reverse, DFS!, graph.foot, graph.graph-kept-well-formed, footGrows, innerStable, frameG, alloc] fresh(g.hash) && fresh(g.adjacencyOut) && fresh(g.adjacencyIn) && forall(m, Inner, imp(infoot(g, m), fresh(m)))
+//@   loop 9 invariant [maps-fresh using maps-fresh, Add, AddEdgeWeighted, AddEdge, Remove, Reverse, DFS!, graph.foot, graph.graph-kept-well-formed, footGrows, innerStable, frameG, alloc] fresh(g.hash) && fresh(g.adjacencyOut) && fresh(g.adjacencyIn) && forall(m, Inner, imp(infoot(g, m), fresh(m)))
+//@   loop 10 invariant [maps-fresh using maps-fresh, Add, AddEdgeWeighted, AddEdge, Remove, Reverse, DFS!, graph.foot, graph.graph-kept-well-formed, footGrows, innerStable, frameG, alloc] fresh(g.hash) && fresh(g.adjacencyOut) && fresh(g.adjacencyIn) && forall(m, Inner, imp(infoot(g, m), fresh(m)))
+//@   loop 11 invariant [maps-fresh using maps-fresh, Add, AddEdgeWeighted, AddEdge, Remove, Reverse, DFS!, graph.foot, graph.graph-kept-well-formed, footGrows, innerStable, frameG, alloc] fresh(g.hash) && fresh(g.adjacencyOut) && fresh(g.adjacencyIn) && forall(m, Inner, imp(infoot(g, m), fresh(m)))
+//@   loop 12 invariant [maps-fresh using maps-fresh, Add, AddEdgeWeighted, AddEdge, Remove, Reverse, DFS!, graph.foot, graph.graph-kept-well-formed, footGrows, innerStable, frameG, alloc] fresh(g.hash) && fresh(g.adjacencyOut) && fresh(g.adjacencyIn) && forall(m, Inner, imp(infoot(g, m), fresh(m)))
+//@   loop * invariant [wf using wf, Add!, AddEdgeWeighted!, AddEdge!, Remove!, Reverse!, DFS!] wf(g) && sameRefs(g)
+//@   loop 1 invariant [gOK using gOK, step-gOK, reps, graph.graph-kept-well-formed, Add!, AddEdgeWeighted!, AddEdge!, Remove!, Reverse!, DFS!] gOK(g)
+//@   loop 2 invariant [gOK using gOK, step-gOK, reps, graph.graph-kept-well-formed, Add!, AddEdgeWeighted!, AddEdge!, Remove!, Reverse!, DFS!] gOK(g)
+//@   loop 3 invariant [gOK using gOK, step-gOK, reps, graph.graph-kept-well-formed, Add!, AddEdgeWeighted!, AddEdge!, Remove!, Reverse!, DFS!] gOK(g)
+//@   loop 4 invariant [gOK using gOK, step-gOK, reps, graph.graph-kept-well-formed, Add!, AddEdgeWeighted!, AddEdge!, Remove!, Reverse!, DFS!] gOK(g)
+//@   loop 5 invariant [gOK using gOK, step-gOK, reps, graph.graph-kept-well-formed, Add!, AddEdgeWeighted!, AddEdge!, Remove!, Reverse!, DFS!] gOK(g)
+//@   loop 6 invariant [gOK using gOK, step-gOK, reps, graph.graph-kept-well-formed, Add!, AddEdgeWeighted!, AddEdge!, Remove!, Reverse!, DFS!] gOK(g)
+//@   loop 7 invariant [gOK using gOK, step-gOK, reps, graph.graph-kept-well-formed, Add!, AddEdgeWeighted!, AddEdge!, Remove!, Reverse!, DFS!] gOK(g)
+//@   loop 8 invariant [gOK using gOK, step-gOK, reps, graph.graph-kept-well-formed, Add!, AddEdgeWeighted!, AddEdge!, Remove!, Reverse!, DFS!] gOK(g)
+//@   loop 9 invariant [gOK using gOK, step-gOK, reps, graph.graph-kept-well-formed, Add!, AddEdgeWeighted!, AddEdge!, Remove!, Reverse!, DFS!] gOK(g)
+//@   loop 10 invariant [gOK using gOK, step-gOK, reps, graph.graph-kept-well-formed, Add!, AddEdgeWeighted!, AddEdge!, Remove!, Reverse!, DFS!] gOK(g)
+//@   loop 11 invariant [gOK using gOK, step-gOK, reps, graph.graph-kept-well-formed, Add!, AddEdgeWeighted!, AddEdge!, Remove!, Reverse!, DFS!] gOK(g)
+//@   loop 12 invariant [gOK using gOK, step-gOK, reps, graph.graph-kept-well-formed, Add!, AddEdgeWeighted!, AddEdge!, Remove!, Reverse!, DFS!] gOK(g)
+//@   loop 13 invariant [gOK using gOK, step-gOK, reps, graph.graph-kept-well-formed, Add!, AddEdgeWeighted!, AddEdge!, Remove!, Reverse!, DFS!] imp(len(unsatisfied) == 0, gOK(g))
+//@   loop * invariant [rules using rules, AddEdgeWeighted!, AddEdge!, Add!, Remove!, Reverse!, DFS!, graph.rule-instances-only] ruleInv(g)
+//@   loop * invariant [root using root, Add!, AddEdgeWeighted!, AddEdge!, Remove!, Reverse!, DFS!, visited-root] typeis(vertexRoot, *rootVertex) && as(vertexRoot, *rootVertex) != nil && has(g.hash, hc(vertexRoot)) && hkind(hc(vertexRoot)) == 5 && args != nil
 //@   loop * invariant [ghost-state] planning == old(planning) && failed == old(failed) && nexec == old(nexec) && sliceskept([]graph.Vertex) && sliceskept([]*Func)
 //@   loop 1 invariant [reps using reps, step-reps, Vertices.reps, gOK, graph.graph-kept-well-formed, Add!, AddEdgeWeighted!, AddEdge!] forall(i, int, imp(0 <= i && i < len(rslice1), has(g.hash, hc(rslice1[i])) && g.hash[hc(rslice1[i])] == rslice1[i] && repOK(rslice1[i])))
 //@   loop 2 invariant [reps using reps, step-reps, Vertices.reps, gOK, graph.graph-kept-well-formed, Add!, AddEdgeWeighted!, AddEdge!] forall(i, int, imp(0 <= i && i < len(rslice2), has(g.hash, hc(rslice2[i])) && g.hash[hc(rslice2[i])] == rslice2[i] && repOK(rslice2[i])))
@@ -662,7 +686,6 @@ package argmapper
 //@   loop 9 invariant [reps using reps, step-reps, Vertices.reps, gOK, graph.graph-kept-well-formed, Add!, AddEdgeWeighted!, AddEdge!] forall(i, int, imp(0 <= i && i < len(rslice9), has(g.hash, hc(rslice9[i])) && g.hash[hc(rslice9[i])] == rslice9[i] && repOK(rslice9[i])))
 //@   loop 10 invariant [reps using reps, step-reps, Vertices.reps, gOK, graph.graph-kept-well-formed, Add!, AddEdgeWeighted!, AddEdge!] forall(i, int, imp(0 <= i && i < len(rslice10), has(g.hash, hc(rslice10[i])) && g.hash[hc(rslice10[i])] == rslice10[i] && repOK(rslice10[i])))
 //@   loop 11 invariant [reps using reps, step-reps, Vertices.reps, gOK, graph.graph-kept-well-formed, Add!, AddEdgeWeighted!, AddEdge!] forall(i, int, imp(0 <= i && i < len(rslice11), has(g.hash, hc(rslice11[i])) && g.hash[hc(rslice11[i])] == rslice11[i] && repOK(rslice11[i])))
-//@   loop 12 invariant [reps using reps, step-reps, Vertices.reps, gOK, graph.graph-kept-well-formed, Add!, AddEdgeWeighted!, AddEdge!] forall(i, int, imp(0 <= i && i < len(rslice12), has(g.hash, hc(rslice12[i])) && g.hash[hc(rslice12[i])] == rslice12[i] && repOK(rslice12[i])))
 //@   after "g.AddEdgeWeighted(v, g.Add(&typedOutputVertex{" assert [step-gOK-1 using step-gOK, gOK, reps, step-reps, Add!, AddEdgeWeighted!] gOK(g)
 //@   after "g.AddEdgeWeighted(v, g.Add(&typedOutputVertex{" assert [step-reps-1 using step-reps, reps, Add!, AddEdgeWeighted!] forall(i, int, imp(0 <= i && i < len(rslice1), has(g.hash, hc(rslice1[i])) && g.hash[hc(rslice1[i])] == rslice1[i] && repOK(rslice1[i])))
 //@   after "g.AddEdgeWeighted(g.Add(&typedArgVertex{" assert [step-gOK-2 using step-gOK, gOK, reps, step-reps, Add!, AddEdgeWeighted!] gOK(g)
@@ -684,6 +707,24 @@ package argmapper
 //@   before "v2, ok := raw.(*valueVertex)" assert [raw-ok-10 using reps] repOK(raw)
 //@   before "v2, ok := raw.(*typedOutputVertex)" assert [raw-ok-11 using reps] repOK(raw)
 //@   before "v2, ok := raw.(*typedOutputVertex)" assert [raw-ok-12 using reps] repOK(raw)
+//@   loop 1 invariant [fok] bVals(args) && funcOK(f)
+//@   loop 2 invariant [fok] bVals(args) && funcOK(f)
+//@   loop 3 invariant [fok] bVals(args) && funcOK(f)
+//@   loop 4 invariant [fok] bVals(args) && funcOK(f)
+//@   loop 5 invariant [fok] bVals(args) && funcOK(f)
+//@   loop 6 invariant [fok] bVals(args) && funcOK(f)
+//@   loop 7 invariant [fok] bVals(args) && funcOK(f)
+//@   loop 8 invariant [fok] bVals(args) && funcOK(f)
+//@   loop 9 invariant [fok] bVals(args) && funcOK(f)
+//@   loop 10 invariant [fok] bVals(args) && funcOK(f)
+//@   loop 11 invariant [fok] bVals(args) && funcOK(f)
+//@   loop 12 invariant [visited-root using visited-root, DFS.sets-only-grow] visited != nil && has(visited, hc(vertexRoot))
+//@   after "vertexFreq := g.OutEdges(vertexF)" assert [requirements-are-values using OutEdges!, graph.rule-instances-only, graph.graph-kept-well-formed, graph.vertex, graph.no-new-roots, Add.verts, Add.new-rep] reqVerts(vertexFreq, vertexRoot)
+//@   loop * invariant [one-root using one-root, Add!, AddEdgeWeighted!, AddEdge!, Remove!, Reverse!, DFS!] forall(k, any, imp(has(g.hash, k) && typeis(g.hash[k], *rootVertex), g.hash[k] == vertexRoot))
+//@   loop * invariant [freq using freq] reqVerts(vertexFreq, vertexRoot) && (vertexFreq == nil || fresh(vertexFreq))
+//@   loop * invariant [inputs-are-values using inputs-are-values, fresh-list] inputVerts(vertexI) && (vertexI == nil || fresh(vertexI))
+//@   loop 13 invariant [own-list using own-list, alloc] unsatisfied == nil || fresh(unsatisfied)
+//@   loop 14 invariant [own-list using own-list, alloc] inputs == nil || fresh(inputs)
 
 // Call: ghost history starts afresh (failed = nil); the three early exits and the final execution
 //@ ghostvar finalStep bool
@@ -770,6 +811,7 @@ package argmapper
 //@   ensures  [vertices-kept] forall(k, any, imp(old(has(g.hash, k)), has(g.hash, k) && g.hash[k] == old(g.hash[k])))
 //@   ensures  [rule-instances-only] imp(old(ruleInv(g)), ruleInv(g))
 //@   ensures  [edges-kept] forall(a, any, b, any, imp(old(edge(g, a, b)), edge(g, a, b)))
+//@   ensures  [no-new-roots] forall(k, any, imp(has(g.hash, k) && !old(has(g.hash, k)), !typeis(g.hash[k], *rootVertex)))
 //@   ensures  [requirements-linked] forall(b, any, imp(in(b, reqs), edge(g, hc(result), b)))
 //@   ensures  [requirements-in-set] forall(j, int, imp(0 <= j && j < len(f.input.values), in(vhash(f.input.values[j]), reqs)))
 //@   assigns  graph.Graph, Outer, Inner, HashM, valueVertex, typedArgVertex, typedOutputVertex, funcVertex, []interface{}, reqs
@@ -784,6 +826,7 @@ package argmapper
 //@   loop 1 invariant gOK(g)
 //@   loop 1 invariant funcOK(f)
 //@   loop 1 invariant footGrows(g)
+//@   loop 1 invariant [no-new-roots] forall(k, any, imp(has(g.hash, k) && !old(has(g.hash, k)), !typeis(g.hash[k], *rootVertex)))
 //@   loop 1 invariant has(g.hash, hc(vertex)) && hc(vertex) == box(rtypeof(f.fn)) && has(g.hash, hc(root)) && typeis(vertex, *funcVertex) && as(vertex, *funcVertex) != nil && as(vertex, *funcVertex).Func == f
 //@   loop 1 invariant forall(k, any, imp(old(has(g.hash, k)), has(g.hash, k) && g.hash[k] == old(g.hash[k])))
 //@   loop 1 invariant imp(old(ruleInv(g)), ruleInv(g))
@@ -794,6 +837,7 @@ package argmapper
 //@   loop 2 invariant gOK(g)
 //@   loop 2 invariant funcOK(as(vertex, *funcVertex).Func)
 //@   loop 2 invariant footGrows(g)
+//@   loop 2 invariant [no-new-roots] forall(k, any, imp(has(g.hash, k) && !old(has(g.hash, k)), !typeis(g.hash[k], *rootVertex)))
 //@   loop 2 invariant has(g.hash, hc(vertex)) && hc(vertex) == box(rtypeof(as(vertex, *funcVertex).Func.fn)) && has(g.hash, hc(root)) && typeis(vertex, *funcVertex) && as(vertex, *funcVertex) != nil && as(vertex, *funcVertex).Func != nil
 //@   loop 2 invariant forall(k, any, imp(old(has(g.hash, k)), has(g.hash, k) && g.hash[k] == old(g.hash[k])))
 //@   loop 2 invariant imp(old(ruleInv(g)), ruleInv(g))
@@ -804,6 +848,7 @@ package argmapper
 //@   loop 3 invariant gOK(g)
 //@   loop 3 invariant funcOK(as(vertex, *funcVertex).Func)
 //@   loop 3 invariant footGrows(g)
+//@   loop 3 invariant [no-new-roots] forall(k, any, imp(has(g.hash, k) && !old(has(g.hash, k)), !typeis(g.hash[k], *rootVertex)))
 //@   loop 3 invariant has(g.hash, hc(vertex)) && hc(vertex) == box(rtypeof(as(vertex, *funcVertex).Func.fn)) && has(g.hash, hc(root)) && typeis(vertex, *funcVertex) && as(vertex, *funcVertex) != nil && as(vertex, *funcVertex).Func != nil
 //@   loop 3 invariant forall(k, any, imp(old(has(g.hash, k)), has(g.hash, k) && g.hash[k] == old(g.hash[k])))
 //@   loop 3 invariant imp(old(ruleInv(g)), ruleInv(g))
@@ -844,6 +889,7 @@ package argmapper
 //@ ghostvar ins set[any]
 //@ ghost rootedSet(g *graph.Graph, root graph.Vertex) bool = forall(h, any, imp(in(h, ins), edge(g, h, hc(root)) && has(g.hash, h) && (hkind(h) == 1 || hkind(h) == 3)))
 //@ ghost listed(vs []graph.Vertex) bool = forall(i, int, imp(0 <= i && i < len(vs), in(hc(vs[i]), ins)))
+//@ ghost inputVerts(vs []graph.Vertex) bool = forall(i, int, imp(0 <= i && i < len(vs), (typeis(vs[i], *valueVertex) && as(vs[i], *valueVertex) != nil) || (typeis(vs[i], *typedOutputVertex) && as(vs[i], *typedOutputVertex) != nil)))
 //@ func (*argBuilder).graph
 //@   requires g != nil && wf0(g) && gOK(g) && bOK(b) && has(g.hash, hc(root)) && hkind(hc(root)) == 5
 //@   ensures  [graph-kept-well-formed] wf(g) && gOK(g) && sameRefs(g)
@@ -851,7 +897,10 @@ package argmapper
 //@   ensures  [vertices-kept] forall(k, any, imp(old(has(g.hash, k)), has(g.hash, k)))
 //@   ensures  [rule-instances-only] imp(old(ruleInv(g)), ruleInv(g))
 //@   ensures  [edges-kept] forall(a, any, b, any, imp(old(edge(g, a, b)), edge(g, a, b)))
+//@   ensures  [no-new-roots] forall(k, any, imp(has(g.hash, k) && !old(has(g.hash, k)), !typeis(g.hash[k], *rootVertex)))
+//@   ensures  [fresh-list] result0 == nil || fresh(result0)
 //@   ensures  [inputs-attached-to-the-root] imp(result2 == nil, rootedSet(g, root) && listed(result0))
+//@   ensures  [inputs-are-values] imp(result2 == nil, inputVerts(result0))
 //@   ensures  [supplied-converters-listed] imp(result2 == nil, len(result1) >= len(b.convs) && forall(i, int, imp(0 <= i && i < len(b.convs), result1[i] == b.convs[i])))
 //@   ensures  [generator-error-returned] imp(result2 != nil, result0 == nil && result1 == nil)
 //@   ensures  [no-user-code-but-generators] planning == old(planning) && failed == old(failed) && nexec == old(nexec)
@@ -866,12 +915,14 @@ package argmapper
 //@   loop * invariant [wf] wf(g) && sameRefs(g)
 //@   loop * invariant [gOK using inv9.gOK, inv8.gOK, graph] gOK(g)
 //@   loop * invariant [foot] footGrows(g)
+//@   loop * invariant [no-new-roots using no-new-roots, Add!, AddOverwrite!, AddEdge!, graph.no-new-roots, graph.vertices-kept] forall(k, any, imp(has(g.hash, k) && !old(has(g.hash, k)), !typeis(g.hash[k], *rootVertex)))
 //@   loop * invariant [b using inv9.b, inv8.b, graph.vertices-kept] bVals(b) && bConvs(b) && has(g.hash, hc(root)) && hkind(hc(root)) == 5
 //@   loop * invariant [verts-kept] forall(k, any, imp(old(has(g.hash, k)), has(g.hash, k)))
 //@   loop * invariant [rules] imp(old(ruleInv(g)), ruleInv(g))
 //@   loop * invariant [edges-kept] forall(a, any, b, any, imp(old(edge(g, a, b)), edge(g, a, b)))
 //@   loop * invariant [rooted using inv9.rooted, inv8.rooted, graph.edges-kept, graph.vertices-kept] rootedSet(g, root)
 //@   loop * invariant [listed using inv9.listed, inv8.listed] listed(result)
+//@   loop * invariant [input-verts using input-verts] inputVerts(result)
 //@   loop * invariant (result == nil || fresh(result)) && sliceskept([]graph.Vertex) && sliceskept([]*Func) && sliceskept([]ConverterGenFunc)
 //@   after "copy(convs, b.convs)" assert [supplied-converters-still-well-formed] bConvs(b)
 //@   loop 8 invariant [convs using inv9.convs, inv8.convs] len(convs) >= len(b.convs) && forall(i, int, imp(0 <= i && i < len(b.convs), convs[i] == b.convs[i])) && fresh(convs)
@@ -879,6 +930,11 @@ package argmapper
 //@   loop 9 invariant [convs using inv9.convs, inv8.convs] len(convs) >= len(b.convs) && forall(i, int, imp(0 <= i && i < len(b.convs), convs[i] == b.convs[i])) && fresh(convs)
 //@   loop 9 invariant [verts using inv9.verts, inv8.verts, graph.vertices-kept] forall(i, int, imp(0 <= i && i < len(rslice8), has(g.hash, hc(rslice8[i])) && g.hash[hc(rslice8[i])] == rslice8[i]))
 //@   before "value := newValueFromVertex(vertex)" assert [vertex-is-a-representative using inv8.verts, inv8.gOK] repOK(vertex)
+
+// a redefine filter is a user predicate on values (T7: no effect on library state)
+//@ assume-note T7: a FilterFunc is a predicate: it reads its argument and has no effect on the call graph, the builder or the ghost execution state
+//@ extern type:argmapper.FilterFunc :: (v Value) bool
+//@   pure
 
 // ---------------------------------------------------------------- call.go: callGraph (C01 C03 C13)
 // The pruning callback: records every vertex it is shown, descends everywhere but into the target.
@@ -902,5 +958,6 @@ package argmapper
 //@   ensures  [only-reported-recorded] imp(cbset(self) != nil, forall(k, any, imp(has(cbset(self), k) && !old(has(cbset(self), k)), in(k, reported))))
 //@   ensures  [never-fails] imp(neverFails(self), result == nil)
 //@   assigns  VisitM, reported, dvisited
+//@   modifies captured(next, "graph.(*Graph).dfs$1", "visited"), cbset(self)
 //@   dispatch next "graph.(*Graph).dfs$1"
 //@   before "visited[graph.VertexID(v)] = struct{}{}" set reported = add(reported, captured(next, "graph.(*Graph).dfs$1", "w"))
